@@ -5,7 +5,7 @@
 
    Statements about the executable models Records.v (parse.go, utils.go, reader.go getPrefixed functions) and
    Lexer.v (lexer.go).  All proofs live in theories/LexerFactsA.v. *)
-From Mcap Require ConstsTie LayoutTie. (* regenerated ties to /repo's source that this property's model relies on *)
+From Mcap Require ConstsTie LayoutTie DecisionTieL. (* regenerated ties to /repo's source that this property's model relies on *)
 From Coq Require Import List NArith ZArith Bool Lia.
 From Coq.Strings Require Import Byte.
 From Mcap Require Import Bytes GoSem Crc32 Records Lexer Source LexerFactsA.
